@@ -119,10 +119,11 @@ def audit_axioms(module, names, workdir):
             fh.write(f"#print axioms {n}\n")
     rc, out = sh(["lake", "env", "lean", f], cwd=LEAN, timeout=1800)
     res = {}
-    # outputs: "'X' depends on axioms: [a, b]" / "'X' does not depend on any axioms"
-    for m in re.finditer(r"'([^']+)' depends on axioms: \[([^\]]*)\]", out.replace("\n ", " ")):
+    # outputs: "'X' depends on axioms: [a, b]" / "'X' does not depend on any axioms" (X may contain primes)
+    flat = out.replace("\n ", " ")
+    for m in re.finditer(r"^'(.+)' depends on axioms: \[([^\]]*)\]", flat, flags=re.M):
         res[m.group(1)] = [a.strip() for a in m.group(2).replace("\n", " ").split(",") if a.strip()]
-    for m in re.finditer(r"'([^']+)' does not depend on any axioms", out):
+    for m in re.finditer(r"^'(.+)' does not depend on any axioms", flat, flags=re.M):
         res[m.group(1)] = []
     return rc, out, res
 
